@@ -1282,7 +1282,7 @@ func runFD09(p *Prog, r *RuleRun) {
 				return "CHOSEN", true // the new head's MinIndex is moved up
 			}
 		case *ssa.Call:
-			if c := x.Call.StaticCallee(); c != nil && c.Name() == "getTailInfo" {
+			if c := x.Call.StaticCallee(); c != nil && c == p.Func("", "state.getTailInfo") {
 				return "LOOP-LEFT", true
 			}
 		}
@@ -1482,7 +1482,7 @@ func runFD10(p *Prog, r *RuleRun) {
 		getTail := ""
 		spec := &fdSpec{MaxVisits: 1,
 			Symbol: func(val ssa.Value) string {
-				if c, ok := val.(*ssa.Call); ok && c.Call.StaticCallee() != nil && c.Call.StaticCallee().Name() == "getTailInfo" {
+				if c, ok := val.(*ssa.Call); ok && c.Call.StaticCallee() != nil && c.Call.StaticCallee() == p.Func("", "state.getTailInfo") {
 					getTail = "seen"
 					return "tailptr"
 				}
